@@ -6,6 +6,9 @@ import (
 	"github.com/0xReLogic/Helios/internal/zzverif/wire"
 	"io"
 	"net"
+	"net/http"
+	"net/http/httptest"
+	"net/url"
 	"os"
 	"os/exec"
 	"path/filepath"
@@ -633,6 +636,265 @@ func TestVerifC18(t *testing.T) {
 	if shard == 4%shardsOfC18() {
 		c18Addresses(t, r, dir)
 	}
+	if shard == 5%shardsOfC18() {
+		c18Wiring(t, r, dir)
+	}
+	if shard == 6%shardsOfC18() {
+		c18Listeners(t, r, dir)
+	}
+}
+
+// c18Listeners: a configuration enables up to three listeners (proxy, metrics, Admin API) and
+// names headers the proxy writes. Menus: the metrics path (the documented one, the path the
+// metrics server uses itself, relative and odd spellings), every clash of two of the three
+// ports, and the ID header names (tokens and non-tokens). Each file the real LoadConfig accepts
+// is started with the real binary in front of a real backend; then EVERYTHING the file switches
+// on must be there: a proxied request answered 200 by the backend, the metrics document at the
+// configured path, the Admin API's health endpoint. Allowed otherwise: the file is refused, or
+// the process ends with a non-zero status and no panic trace.
+func c18Listeners(t *testing.T, r *vres.Report, dir string) {
+	bin := os.Getenv("VERIF_HELIOS_BIN")
+	if bin == "" {
+		return
+	}
+	start := time.Now()
+	repo := os.Getenv("VERIF_REPO")
+	if repo == "" {
+		repo = "/repo"
+	}
+	be := wire.NewBackend("listeners")
+	defer be.Close()
+	type file struct {
+		label                  string
+		metricsPath            string
+		clash                  string // which two ports are the same ("" = none)
+		reqHeader, traceHeader string
+	}
+	var files []file
+	for _, mp := range []string{"/metrics", "/health", "/", "metrics", "/metrics/", "/a b", "//metrics", "/m?x=1", "GET /metrics", "/metrics#x", "/%zz"} {
+		files = append(files, file{label: "metrics.path=" + mp, metricsPath: mp})
+	}
+	for _, c := range []string{"proxy=metrics", "proxy=admin", "metrics=admin"} {
+		files = append(files, file{label: "ports:" + c, metricsPath: "/metrics", clash: c})
+	}
+	for _, h := range []string{"X-Request-ID", "X Request ID", "X-Request-ID:", "Request\tId", "\u00dcber-Id", "x"} {
+		files = append(files, file{label: "request_id.header=" + h, metricsPath: "/metrics", reqHeader: h}, file{label: "trace.header=" + h, metricsPath: "/metrics", traceHeader: h})
+	}
+	type verdict struct{ outcome, key, what, yaml string }
+	res := make([]verdict, len(files))
+	var wg sync.WaitGroup
+	sem := make(chan struct{}, 8)
+	for i, f := range files {
+		i, f := i, f
+		wg.Add(1)
+		sem <- struct{}{}
+		go func() {
+			defer wg.Done()
+			defer func() { <-sem }()
+			pp, mp, ap := freePort(), freePort(), freePort()
+			switch f.clash {
+			case "proxy=metrics":
+				mp = pp
+			case "proxy=admin":
+				ap = pp
+			case "metrics=admin":
+				ap = mp
+			}
+			y := fmt.Sprintf("server:\n  port: %d\nbackends:\n  - name: b1\n    address: %s\nmetrics:\n  enabled: true\n  port: %d\n  path: %q\nadmin_api:\n  enabled: true\n  port: %d\n", pp, be.URL(), mp, f.metricsPath, ap)
+			if f.reqHeader != "" || f.traceHeader != "" {
+				y += "logging:\n"
+				if f.reqHeader != "" {
+					y += fmt.Sprintf("  request_id:\n    enabled: true\n    header: %q\n", f.reqHeader)
+				}
+				if f.traceHeader != "" {
+					y += fmt.Sprintf("  trace:\n    enabled: true\n    header: %q\n", f.traceHeader)
+				}
+			}
+			path := filepath.Join(dir, fmt.Sprintf("listeners-%d.yaml", i))
+			os.WriteFile(path, []byte(y), 0o644)
+			if _, err := config.LoadConfig(path); err != nil {
+				res[i] = verdict{outcome: "refused"}
+				return
+			}
+			cmd := exec.Command(bin, "-config", path)
+			cmd.Dir = repo
+			var out bytes.Buffer
+			cmd.Stdout, cmd.Stderr = &out, &out
+			if err := cmd.Start(); err != nil {
+				res[i] = verdict{outcome: "tool", what: err.Error()}
+				return
+			}
+			done := make(chan error, 1)
+			go func() { done <- cmd.Wait() }()
+			get := func(port int, target string) string {
+				c, err := net.DialTimeout("tcp", fmt.Sprintf("127.0.0.1:%d", port), 300*time.Millisecond)
+				if err != nil {
+					return "no listener"
+				}
+				defer c.Close()
+				fmt.Fprintf(c, "GET %s HTTP/1.1\r\nHost: x\r\nConnection: close\r\n\r\n", target)
+				c.SetReadDeadline(time.Now().Add(10 * time.Second))
+				b, _ := io.ReadAll(c)
+				if len(b) >= 12 && strings.HasPrefix(string(b), "HTTP/1.1 ") {
+					st := string(b[9:12])
+					if target == "/v1/health" || strings.Contains(string(b), "total_requests") || port == pp {
+						return st
+					}
+					return st + " (not the metrics document)"
+				}
+				return "no HTTP answer"
+			}
+			// what the file asks for, at the places the documentation gives
+			mt := f.metricsPath
+			want := map[string]func() string{
+				"proxy":   func() string { return get(pp, "/") },
+				"metrics": func() string { return get(mp, (&url.URL{Path: mt}).EscapedPath()) },
+				"admin":   func() string { return get(ap, "/v1/health") },
+			}
+			got := map[string]string{}
+			exited := ""
+			deadline := time.Now().Add(20 * time.Second)
+			for time.Now().Before(deadline) && exited == "" {
+				select {
+				case err := <-done:
+					exited = fmt.Sprintf("exited: %v", err)
+				case <-time.After(50 * time.Millisecond):
+				}
+				ok := true
+				for k, fn := range want {
+					if got[k] != "200" {
+						got[k] = fn()
+					}
+					if got[k] != "200" {
+						ok = false
+					}
+				}
+				if ok {
+					break
+				}
+				if time.Since(start) > 0 && got["proxy"] != "no listener" && got["proxy"] != "" && time.Until(deadline) > 17*time.Second {
+					// the proxy is up: give the ancillary servers a moment, then stop waiting
+					deadline = time.Now().Add(1500 * time.Millisecond)
+				}
+			}
+			if exited == "" {
+				cmd.Process.Kill()
+				<-done
+			}
+			o := out.String()
+			desc := fmt.Sprintf("%s is accepted by LoadConfig; the real binary", f.label)
+			allOK := got["proxy"] == "200" && got["metrics"] == "200" && got["admin"] == "200"
+			switch {
+			case strings.Contains(o, "panic:") || strings.Contains(o, "goroutine "):
+				res[i] = verdict{"crashed", "C18/accepted-configuration-crashes-the-process/" + strings.SplitN(f.label, "=", 2)[0], fmt.Sprintf("%s %s with a Go panic: %s", desc, exited, firstPanic(o)), y}
+			case exited == "" && allOK:
+				res[i] = verdict{outcome: "works"}
+			case strings.HasPrefix(exited, "exited: exit status"):
+				res[i] = verdict{outcome: "start-up error"}
+			default:
+				res[i] = verdict{"half", "C18/accepted-configuration-starts-half-configured/" + strings.SplitN(f.label, "=", 2)[0], fmt.Sprintf("%s runs, but of what the file switches on only part is there: proxied request -> %s, metrics document at %q -> %s, Admin API health -> %s %s", desc, got["proxy"], mt, got["metrics"], got["admin"], exited), y}
+			}
+		}()
+	}
+	wg.Wait()
+	var outs vres.Outcomes
+	for i, v := range res {
+		outs.Add(strings.SplitN(files[i].label, "=", 2)[0] + "/" + v.outcome)
+		if v.outcome == "tool" {
+			t.Fatal(v.what)
+		}
+		if v.key != "" {
+			r.Violate(v.key, v.what, 5, map[string]interface{}{"yaml": v.yaml})
+		}
+	}
+	r.AddScenario(vres.Scenario{Name: "listeners-and-header-names", Engine: "P", Evaluations: int64(len(files)), Distinct: int64(outs.N()), Outcomes: outs.N(),
+		Rule:  "one evaluation = one file with proxy, metrics server and Admin API enabled in front of a real backend, loaded with the real LoadConfig and, if accepted, started with the real binary: a proxied request must be answered 200, the metrics document served at the configured path and the Admin API health endpoint answer, or the process must exit non-zero without a panic trace; distinct = (menu, refused / works / start-up error / crashed / half) classes",
+		Bound: fmt.Sprintf("%d files: 11 metrics paths, 3 port clashes, 6 header names for each of the two ID headers", len(files)), Exhaustive: true,
+		Extra: map[string]interface{}{"wall_s": time.Since(start).Seconds()}})
+}
+
+// c18Wiring: "never starts half-configured" for the settings that are handed on to net/http:
+// each timeout of the server section must arrive in the place the documentation names for it
+// (read / write / idle on the listening server, backend_read / backend_idle on every backend's
+// transport), with its own value, and an omitted one at its documented default. Files give
+// all eight settings distinct values, and each one alone with the others omitted; the server is
+// built with the real createHTTPServer and the balancer with the real NewLoadBalancer.
+func c18Wiring(t *testing.T, r *vres.Report, dir string) {
+	start := time.Now()
+	names := []string{"read", "write", "idle", "handler", "shutdown", "backend_dial", "backend_read", "backend_idle"}
+	defaults := map[string]int{"read": 15, "write": 15, "idle": 60, "backend_read": 30, "backend_idle": 90}
+	var files []map[string]int
+	all := map[string]int{}
+	for i, n := range names {
+		all[n] = 101 + i
+	}
+	files = append(files, all)
+	for _, n := range names {
+		files = append(files, map[string]int{n: 7}, map[string]int{n: 1})
+	}
+	files = append(files, map[string]int{})
+	var evals int64
+	var outs vres.Outcomes
+	for _, set := range files {
+		y := "server:\n  port: 8080\n"
+		if len(set) > 0 {
+			y += "  timeouts:\n"
+			for _, n := range names {
+				if v, ok := set[n]; ok {
+					y += fmt.Sprintf("    %s: %d\n", n, v)
+				}
+			}
+		}
+		y += "backends:\n  - name: base1\n    address: http://127.0.0.1:9\n  - name: base2\n    address: http://127.0.0.1:10\n"
+		cfg, err := c18Load(dir, "wiring.yaml", y)
+		evals++
+		if err != nil {
+			r.Violate("C18/valid-configuration-rejected/timeouts", fmt.Sprintf("timeouts %v: %v", set, err), 5, map[string]interface{}{"yaml": y})
+			continue
+		}
+		want := func(n string) time.Duration {
+			if v, ok := set[n]; ok {
+				return time.Duration(v) * time.Second
+			}
+			return time.Duration(defaults[n]) * time.Second
+		}
+		srv := createHTTPServer(cfg, nil)
+		got := map[string]time.Duration{"read": srv.ReadTimeout, "write": srv.WriteTimeout, "idle": srv.IdleTimeout}
+		lb, err := loadbalancer.NewLoadBalancer(cfg)
+		if err != nil {
+			r.Violate("C18/accepted-configuration-does-not-start/timeouts", fmt.Sprintf("timeouts %v: %v", set, err), 5, map[string]interface{}{"yaml": y})
+			continue
+		}
+		seenBackends := 0
+		for i := 0; i < 2; i++ {
+			b := lb.NextBackend(httptest.NewRequest("GET", "http://x.test/", nil))
+			if b == nil || b.ReverseProxy == nil {
+				continue
+			}
+			if tr, ok := b.ReverseProxy.Transport.(*http.Transport); ok {
+				seenBackends++
+				got["backend_read@"+b.Name], got["backend_idle@"+b.Name] = tr.ResponseHeaderTimeout, tr.IdleConnTimeout
+			}
+		}
+		lb.Stop()
+		if seenBackends == 0 {
+			t.Fatal("c18Wiring: no backend transport to inspect")
+		}
+		for where, g := range got {
+			n := where
+			if i := strings.Index(n, "@"); i >= 0 {
+				n = n[:i]
+			}
+			outs.Add(fmt.Sprintf("%s/%v", n, g == want(n)))
+			if g != want(n) {
+				r.Violate("C18/setting-not-in-force/server.timeouts."+n, fmt.Sprintf("server.timeouts %v: %s is documented to be %v here (own value, or the documented default when omitted), the running configuration has %v (%s)", set, n, want(n), g, where), 5, map[string]interface{}{"yaml": y})
+			}
+		}
+	}
+	r.AddScenario(vres.Scenario{Name: "timeouts-arrive-where-documented", Engine: "W", Evaluations: evals, Distinct: int64(outs.N()), Outcomes: outs.N(),
+		Rule:  "one evaluation = one file loaded with the real LoadConfig, the listening server built with the real createHTTPServer and the balancer with the real NewLoadBalancer; read / write / idle are read off the server, backend_read / backend_idle off every backend's transport; distinct = (setting, as documented) classes",
+		Bound: fmt.Sprintf("%d files: all eight timeouts with distinct values, each one alone (7 and 1) with the others omitted, none", len(files)), Exhaustive: true,
+		Extra: map[string]interface{}{"wall_s": time.Since(start).Seconds()}})
 }
 
 // c18Addresses: the ways an operator may write the address of one and the same backend (a
